@@ -957,3 +957,114 @@ func init() {
 		}
 	})
 }
+
+// acquiresOwnMutex: fn locks (Lock or RLock) a mutex field of its own receiver, directly or through a method it calls on the
+// same receiver (two levels); returns the mutex fields.
+func (c *Ctx) acquiresOwnMutex(fn *ssa.Function, depth int) map[*types.Var]bool {
+	out := map[*types.Var]bool{}
+	if fn == nil || fn.Blocks == nil || len(fn.Params) == 0 || fn.Signature.Recv() == nil || depth > 2 {
+		return out
+	}
+	recv := fn.Params[0]
+	for _, site := range callsIn(fn) {
+		if _, isDefer := site.(*ssa.Defer); isDefer {
+			continue
+		}
+		if k, d := mutexOp(site.Common()); d > 0 && k.base == ssa.Value(recv) {
+			out[k.field] = true
+			continue
+		}
+		g := site.Common().StaticCallee()
+		if g != nil && g.Signature.Recv() != nil && len(site.Common().Args) > 0 && site.Common().Args[0] == ssa.Value(recv) && inModule(fnPkgPath(g)) {
+			for f := range c.acquiresOwnMutex(g, depth+1) {
+				out[f] = true
+			}
+		}
+	}
+	return out
+}
+
+func init() {
+	reg := registry["C18"]
+	reg.Meta.Rules["C18.9"] = "no lock is taken twice by one goroutine: while a function holds a mutex of an object (read or write side), it calls no method on that object that acquires the same mutex again (sync.RWMutex is not re-entrant: a writer arriving between the two read locks blocks the second one, and with it the query, the background goroutine and Stop)"
+	reg.Meta.Rules["C18.10"] = "the handlers in the package-level datatype registry are shared by every writer in the process and stay read-only: no method of a registered handler type stores to a field of its receiver (a memo in the shared handler is a data race between independent files, and hands one file's message to the other)"
+	reg.Rules = append(reg.Rules, func(c *Ctx, r *Result) {
+		// ---- C18.9
+		n := 0
+		for _, fn := range c.LibFuncs() {
+			pk := shortPkg(fnPkgPath(fn))
+			if pk != "structures" && pk != "rebalancing" && pk != "hdf5" && pk != "writer" {
+				continue
+			}
+			hasLock := false
+			for _, site := range callsIn(fn) {
+				if _, d := mutexOp(site.Common()); d > 0 {
+					hasLock = true
+				}
+			}
+			if !hasLock {
+				continue
+			}
+			li := LocksIn(fn, lockSet{})
+			for _, site := range callsIn(fn) {
+				if _, isDefer := site.(*ssa.Defer); isDefer {
+					continue
+				}
+				if _, isGo := site.(*ssa.Go); isGo {
+					continue // another goroutine: it waits for the lock, it does not re-enter it
+				}
+				in := site.(ssa.Instruction)
+				held := li.at[in]
+				if len(held) == 0 {
+					continue
+				}
+				g := site.Common().StaticCallee()
+				if g == nil || g.Signature.Recv() == nil || len(site.Common().Args) == 0 || !inModule(fnPkgPath(g)) {
+					continue
+				}
+				recvArg := site.Common().Args[0]
+				acq := c.acquiresOwnMutex(g, 0)
+				if len(acq) == 0 {
+					continue
+				}
+				for k := range held {
+					if k.base == recvArg && acq[k.field] {
+						n++
+						r.Viol("C18.9", c.Name(fn)+"#"+c.Name(g)+"#lock-taken-again", c.InstrPos(in), c.Name(fn)+" holds "+k.field.Name()+" of the object and calls "+c.Name(g)+", which acquires it again")
+					}
+				}
+			}
+		}
+		if n == 0 {
+			r.Hold("C18.9", "module#no-reentrant-locking", "", "no method is called on an object whose mutex the caller holds and the callee acquires")
+		}
+		// ---- C18.10
+		handlers := map[string]bool{}
+		for _, e := range c.registryEntries(r) {
+			if e.Handler != "" {
+				handlers[strings.TrimPrefix(e.Handler, "*")] = true
+			}
+		}
+		m := 0
+		for _, fn := range c.LibFuncs() {
+			if shortPkg(fnPkgPath(fn)) != "hdf5" || fn.Signature.Recv() == nil || len(fn.Params) == 0 {
+				continue
+			}
+			tn := strings.TrimPrefix(typeShort(fn.Params[0].Type()), "*")
+			if !handlers[tn] {
+				continue
+			}
+			m++
+			bad := ""
+			for _, fs := range c.DirectFieldStores(fn) {
+				if fs.Fn == fn && strings.HasPrefix(fs.Key, tn+".") {
+					bad = c.InstrPos(fs.In) + " (" + fs.Key + ")"
+				}
+			}
+			r.Check(bad == "", "C18.10", c.Name(fn)+"#registered-handler-is-read-only", c.Pos(fn.Pos()), "methods of a handler registered in the package-level datatype registry do not store to the handler: "+bad)
+		}
+		if m == 0 {
+			r.Errorf("C18.10: no method of a registered datatype handler found")
+		}
+	})
+}
